@@ -65,6 +65,7 @@ func vSessSX(s *sessionsapi.SessionState) vsx {
 func driveC08(t *testing.T, out *vEmitter) {
 	defer vC08ProviderFamilies(t, out)
 	defer vC08ConcurrentConstraints(t, out)
+	defer vC08BodyParameters(t, out)
 	// ---- 1. the e-mail validator ----
 	domainSets := [][]string{
 		{"example.com"}, {".example.com"}, {"*.example.com"}, {"*"}, {"Example.COM", ".Sub.Example.org"},
@@ -583,6 +584,53 @@ func vC08ProviderFamilies(t *testing.T, out *vEmitter) {
 		}
 		if served == 0 {
 			out.Violation("control/no-session-served", "no session was served under this provider family: the sweep checks nothing", map[string]interface{}{"provider": f.name})
+		}
+	}
+}
+
+// vC08BodyParameters: the auth-only constraints are the QUERY's (the operator's nginx configuration writes them there): a
+// request body carrying parameters of the same names - which the CALLER controls - neither widens nor narrows them, for
+// every method that may carry a urlencoded body.
+func vC08BodyParameters(t *testing.T, out *vEmitter) {
+	e := vNewEnv(t, vEnvCfg{oidc: true, mod: func(o *options.Options) {
+		o.Providers[0].OIDCConfig.InsecureSkipNonce = true
+	}})
+	b := e.newBrowser("https://app.example.com")
+	ss := b.seedSession("user@example.com", time.Minute, 20)
+	ss.Groups = []string{"users"}
+	vReseed(b, ss)
+	type tc struct {
+		query, body string
+		want        bool
+	}
+	cases := []tc{
+		{"allowed_groups=admins", "allowed_groups=users", false}, {"allowed_groups=admins", "", false}, {"allowed_groups=users", "allowed_groups=admins", true},
+		{"allowed_emails=boss@example.com", "allowed_emails=user@example.com", false}, {"allowed_email_domains=corp.example", "allowed_email_domains=example.com", false},
+		{"allowed_groups=admins&allowed_emails=boss@example.com", "allowed_groups=users&allowed_emails=user@example.com", false},
+		{"", "allowed_groups=admins", true}, {"allowed_groups=users", "", true},
+	}
+	for _, c := range cases {
+		for _, method := range []string{"GET", "POST", "PUT", "PATCH", "DELETE"} {
+			target := "/oauth2/auth"
+			if c.query != "" {
+				target += "?" + c.query
+			}
+			hs := [][2]string{{"Cookie", b.cookieHeader("/")}}
+			if c.body != "" {
+				hs = append(hs, [2]string{"Content-Type", "application/x-www-form-urlencoded"})
+			}
+			req, err := vRawRequest(vBuildRaw(method, target, "app.example.com", hs, c.body))
+			if err != nil {
+				continue
+			}
+			res := e.serve(req)
+			got := res.Status == 202
+			out.Obs("auth-only-body", true, vL(vS(method), vS(c.query), vS(c.body), vI(int64(res.Status))))
+			out.Stat("c08_body_parameter_requests", 1)
+			if got != c.want {
+				out.Violation("authz/request-enforcement", "the auth-only answer followed parameters in the request BODY instead of the query constraints alone",
+					map[string]interface{}{"method": method, "query": c.query, "body": c.body, "session_groups": ss.Groups, "session_email": ss.Email, "status": res.Status, "want_202": c.want})
+			}
 		}
 	}
 }
